@@ -41,7 +41,9 @@ type opRec struct {
 	Chunks []int  `json:"chunks,omitempty"`
 }
 
-func (o opRec) String() string { return fmt.Sprintf("%s/%s root=%d %v", o.Op, o.Mode, o.Root, o.Chunks) }
+func (o opRec) String() string {
+	return fmt.Sprintf("%s/%s root=%d %v", o.Op, o.Mode, o.Root, o.Chunks)
+}
 
 var putModes = map[string]storage.ModePut{"request": storage.ModePutRequest, "upload": storage.ModePutUpload, "uploadpin": storage.ModePutUploadPin, "requestpin": storage.ModePutRequestPin}
 var setModes = map[string]storage.ModeSet{"pin": storage.ModeSetPin, "unpin": storage.ModeSetUnpin, "remove": storage.ModeSetRemove, "sync": storage.ModeSetSync}
@@ -50,6 +52,9 @@ var setModes = map[string]storage.ModeSet{"pin": storage.ModeSetPin, "unpin": st
 type world struct {
 	chunks []boson.Chunk
 	files  map[int][]int
+	// rootInPyramid: the reported chunk list of a cached file contains the root chunk itself
+	// (as the real chunkinfo reports it) - two thirds of the histories
+	rootInPyramid bool
 }
 
 // stubCI is the collaborator collectGarbage needs: which chunks belong to a cached file.
@@ -69,6 +74,9 @@ func (s *stubCI) GetChunkPyramid(root boson.Address) []*chunkinfo.PyramidCidNum 
 			continue
 		}
 		var out []*chunkinfo.PyramidCidNum
+		if s.w.rootInPyramid {
+			out = append(out, &chunkinfo.PyramidCidNum{Cid: root, Number: 1})
+		}
 		for _, m := range members {
 			out = append(out, &chunkinfo.PyramidCidNum{Cid: s.w.chunks[m].Address(), Number: 1})
 		}
@@ -137,6 +145,23 @@ type state struct {
 	gc      map[string]uint64
 	gcSize  uint64
 	sumGC   uint64
+	accTS   map[string]int64   // access index: name -> access timestamp
+	gcEnts  map[string][]gcEnt // gc index entries by root name
+}
+
+type gcEnt struct {
+	ts    int64
+	count uint64
+}
+
+// group is the bookkeeping of ONE chunk address without timestamps: stored?, access entry?,
+// pin count, number of cache (gc) entries filed under this address. The chunk count inside a
+// cache entry is left out: an operation on several chunks of one file updates it in steps,
+// and the statement fixes only pin counts to their before / after value.
+func (s *state) group(n string) string {
+	_, pr := s.present[n]
+	_, ac := s.accTS[n]
+	return fmt.Sprintf("stored=%v access-entry=%v pins=%d cache-entries=%d", pr, ac, s.pins[n], len(s.gcEnts[n]))
 }
 
 func dump(db *localstore.DB, w *world) (*state, error) {
@@ -152,7 +177,7 @@ func dump(db *localstore.DB, w *world) (*state, error) {
 		}
 		return fmt.Sprintf("%x", a)
 	}
-	st := &state{present: map[string]int{}, pins: map[string]uint64{}, gc: map[string]uint64{}, gcSize: s.GCSize}
+	st := &state{present: map[string]int{}, pins: map[string]uint64{}, gc: map[string]uint64{}, gcSize: s.GCSize, accTS: map[string]int64{}, gcEnts: map[string][]gcEnt{}}
 	for _, it := range s.RetrievalData {
 		n := name(it.Address)
 		st.present[n] = len(it.Data)
@@ -168,10 +193,12 @@ func dump(db *localstore.DB, w *world) (*state, error) {
 	}
 	for _, it := range s.RetrievalAccess {
 		st.access = append(st.access, name(it.Address))
+		st.accTS[name(it.Address)] = it.AccessTimestamp
 	}
 	for _, it := range s.GC {
 		st.gc[name(it.Address)] += it.GCounter
 		st.sumGC += it.GCounter
+		st.gcEnts[name(it.Address)] = append(st.gcEnts[name(it.Address)], gcEnt{it.AccessTimestamp, it.GCounter})
 	}
 	return st, nil
 }
@@ -210,6 +237,21 @@ var relations = map[string]func(*state) string{
 		for n := range s.gc {
 			if _, ok := s.present[n]; !ok {
 				return "cache (gc) entry for absent root chunk " + n
+			}
+		}
+		return ""
+	},
+	"cache-entry-filed-under-the-access-time-of-its-root": func(s *state) string {
+		// the store finds a root's cache entry through the root's access-index entry: an entry
+		// filed under another time can never be updated or removed again
+		for n, es := range s.gcEnts {
+			for _, e := range es {
+				if ts, ok := s.accTS[n]; !ok || ts != e.ts {
+					return fmt.Sprintf("cache (gc) entry of %s is filed under access time %d, the access index has %v (present=%v)", n, e.ts, ts, ok)
+				}
+			}
+			if len(es) > 1 {
+				return fmt.Sprintf("%d cache (gc) entries for the same root %s", len(es), n)
 			}
 		}
 		return ""
@@ -263,7 +305,24 @@ func genHistory(rng *rand.Rand, nU int) []opRec {
 			hist = append(hist, opRec{Op: "put", Mode: mode, Root: root, Chunks: chs})
 		case x < 16:
 			mode := []string{"pin", "pin", "unpin", "unpin", "remove", "remove", "sync"}[rng.Intn(7)]
-			hist = append(hist, opRec{Op: "set", Mode: mode, Root: root, Chunks: []int{rng.Intn(nU)}})
+			ch := rng.Intn(nU)
+			if mode == "unpin" && rng.Intn(4) > 0 {
+				// aim at a chunk pinned earlier in this history, half of the time under the same file context
+				var cand []opRec
+				for _, h := range hist {
+					if h.Mode == "pin" || h.Mode == "uploadpin" || h.Mode == "requestpin" {
+						cand = append(cand, h)
+					}
+				}
+				if len(cand) > 0 {
+					h := cand[rng.Intn(len(cand))]
+					ch = h.Chunks[rng.Intn(len(h.Chunks))]
+					if rng.Intn(2) == 0 {
+						root = h.Root
+					}
+				}
+			}
+			hist = append(hist, opRec{Op: "set", Mode: mode, Root: root, Chunks: []int{ch}})
 		default:
 			hist = append(hist, opRec{Op: "collect", Root: -1})
 		}
@@ -287,6 +346,7 @@ func TestCrashPoints(t *testing.T) {
 		}
 		rng := c.Rand()
 		w := &world{files: map[int][]int{}}
+		w.rootInPyramid = i%3 != 0
 		for k := 0; k < 10; k++ {
 			d := make([]byte, 1+rng.Intn(100))
 			rng.Read(d)
@@ -425,6 +485,17 @@ func TestCrashPoints(t *testing.T) {
 					}
 					if msg := f(got); msg != "" {
 						c.Viol(r+"/after-crash-in-"+kind, fmt.Sprintf("crash before write %d of %d of %s: %s", k, st.writes, o, msg), wit)
+					}
+				}
+				// per chunk: its whole bookkeeping is the one from before or the one from after the
+				// interrupted operation, never a mixture of the two
+				for ci := range w.chunks {
+					nme := fmt.Sprintf("c%d", ci)
+					g := got.group(nme)
+					run.Stat("chunk_bookkeeping_groups_compared", 1)
+					if g != st.before.group(nme) && g != st.after.group(nme) {
+						c.Viol("chunk-bookkeeping-neither-before-nor-after/crash-in-"+kind, fmt.Sprintf("crash before write %d of %d of %s: bookkeeping of %s is {%s}; before the operation {%s}, after it {%s}", k, st.writes, o, nme, g, st.before.group(nme), st.after.group(nme)), wit)
+						break
 					}
 				}
 				// pin counters: value before or after the interrupted operation
